@@ -6,6 +6,11 @@ COMMON_TRUST = [
     "the correspondence harness (/verif/harness), its generators and monitors",
 ]
 
+SSO_TRUST = [
+    "Model.Sso is a hand-written model of ssoHandleFunc over the chain skeleton: tied by theorem sso_skeleton_current (regenerated step list, kinds, callees, failure replies and per-step source fingerprints = snapshot) and by the sso correspondence (model vs implementation on every generated request, the model input derived with the library's own decoders)",
+    "net/http form parsing, encoding/xml decoding, gorilla/mux routing are not modelled (the harness derives the model's input from them)",
+]
+
 PROPS = {
     "C16": {
         "modules": ["SamlModel.Props.C16"],
@@ -27,5 +32,30 @@ PROPS = {
         "assumptions": [
             "client closures are deterministic and do not panic (a panicking closure aborts the chain in Go and in the model alike; not modelled)",
         ],
+    },
+    "C05": {
+        "modules": ["SamlModel.Props.C05"],
+        "translated": ["signaturePostProvided", "signaturePostVerificationNecessary", "signatureRedirectVerificationNecessary",
+                       "verifyRedirectSignature", "verifyPostSignature", "certificateCheckNecessary", "checkCertificate", "isXSBooleanTrue"],
+        "trusted_base": COMMON_TRUST + SSO_TRUST + [
+            "RSA / XML-DSig validation are oracles: ServiceProvider.ValidateRedirectSignature / ValidatePostSignature (their octet reconstruction, goxmldsig, etree) are sampled by the harness with real keys, not proved; signature-wrapping inside goxmldsig/etree vs encoding/xml is outside the theorem",
+        ],
+        "assumptions": ["Form.WF: the binding decision of getAuthRequestFromRequest is POST or Redirect (fingerprinted function; checked on every case by the sso correspondence)"],
+    },
+    "C06": {
+        "modules": ["SamlModel.Props.C06"],
+        "translated": ["checkRequestRequiredContent", "checkIfRequestTimeIsStillValid", "verifyRequestDestinationOfAuthRequest", "ServiceProvider_GetEntityID"],
+        "trusted_base": COMMON_TRUST + SSO_TRUST + [
+            "time.Parse / time.Now are oracles (Ora.timeParse, Ora.now); XML decoding (DecodeAuthNRequest incl. base64/DEFLATE) is an oracle whose failure is `decoded = none`",
+        ],
+        "assumptions": ["wall-clock cases keep a 10-minute guard band; the exact boundary NotBefore <= now < NotOnOrAfter is covered by the theorem on the translated time.go"],
+    },
+    "C08": {
+        "modules": ["SamlModel.Props.C08"],
+        "translated": ["GetAcsUrlAndBindingForResponse", "checkRequestRequiredContent"],
+        "trusted_base": COMMON_TRUST + SSO_TRUST + [
+            "that the implementation writes exactly one reply and calls CreateAuthRequest at most once is observed by the harness (reply parser counts documents/forms; storage call log), the model's Result holds one of each by construction",
+        ],
+        "assumptions": [],
     },
 }
